@@ -1,6 +1,7 @@
 """C05 - EBB3 command/query framing and fault handling. Specs: EBB3Ops, EBB3Link, EBB3Trace (focus C05)."""
 import os
 import random
+import zlib
 
 import ebb3lib as L
 import vlib
@@ -48,7 +49,7 @@ def select_scripts(allitems, every, offset):
         members.sort()
         size = len(members)
         for rank, (_k, idx) in enumerate(members):
-            if (rank + offset) % every == 0 or (size < every and rank == offset % size):
+            if rank == 0 or (rank + offset) % every == 0:          # the top-ranked member of every stratum always runs
                 chosen.append(idx)
     return sorted(chosen)
 
@@ -65,7 +66,9 @@ def g_scripts(ctx, focus, name, cfg, ncalls, start_connected, cap=None, every=1)
         if cap and len(items) >= cap:
             break
         hist, dev, board, _st = allitems[idx]
-        calls, drift = L.run_script(hist, dev, board, start_connected, wsoff=k + ctx.seed)
+        # padding / connect() form / close() behaviour are a function of the history's content (not of TLC's dump order) and of the seed
+        wsoff = zlib.crc32(repr((dev, sorted(board.items()), [(h["m"], list(h["a"]), h["s"], repr(h["env"])) for h in hist])).encode()) % 997 + ctx.seed
+        calls, drift = L.run_script(hist, dev, board, start_connected, wsoff=wsoff)
         for h, c in zip([x for x in hist if x["m"] != "<replug>"], calls):
             if h["m"] == "connect" and h["obs"] and list(h["obs"][0]["ret"]) == ["bool", True]:
                 conn_model += 1
@@ -168,7 +171,8 @@ def replay(rec):
         for h in hist:
             for e in h["env"]:
                 e.setdefault("r", None)
-        calls, _ = run_script_with_board(hist, c["dev"], c["board"], pyb, start_connected=c.get("start_connected", True))
+        calls, _ = run_script_with_board(hist, c["dev"], c["board"], pyb, start_connected=c.get("start_connected", True), ws=c.get("ws"),
+                                         close_fault=c.get("close_fault", ""))
     else:
         return True, {"note": "V histories are regenerated from the seed; rerun the check with the same VERIF_SEED"}
     ctx = vlib.Ctx(rec["property"], "quick", 0, LEVEL, fresh=False)
@@ -176,7 +180,7 @@ def replay(rec):
     return v == "ok" or v.startswith("skip"), {"verdict": v, "calls": [[x["m"], x["ret"], x["err_set"]] for x in calls]}
 
 
-def run_script_with_board(hist, dev, board, pyb, start_connected=True):
+def run_script_with_board(hist, dev, board, pyb, start_connected=True, ws=None, close_fault=""):
     state = {"env": []}
 
     def supplier(text):
@@ -192,7 +196,7 @@ def run_script_with_board(hist, dev, board, pyb, start_connected=True):
             else:
                 plan["e"], plan["o"], plan["r"] = 0, "conf", pyb.reply(text)
         return plan
-    sess = L.Session(dev, start_connected, board, supplier)
+    sess = L.Session(dev, start_connected, board, supplier, close_fault=close_fault)
     calls = []
     try:
         for k, h in enumerate(hist):
@@ -200,7 +204,8 @@ def run_script_with_board(hist, dev, board, pyb, start_connected=True):
                 sess.dev = h["s"]
                 continue
             state["env"] = [dict(e) for e in h["env"]]
-            calls.append(sess.run_call(h["m"], h["a"], h["s"], ws=k + len(h["s"])))
+            wk = ws[len(calls)] if ws and len(calls) < len(ws) else k + len(h["s"])          # the padding / connect form the run used for this call
+            calls.append(sess.run_call(h["m"], h["a"], h["s"], ws=wk))
     finally:
         sess.close()
     return calls, []
